@@ -8,30 +8,37 @@
 (*                                                                                               *)
 (* One action per public call.  Close(n) / Drop(n) are called on the store most recently         *)
 (* returned by OpenDB(n) (using a store after its last close is outside the statement).          *)
+(* OpenFail(n) is an OpenDB(n) whose underlying open fails (transient fault of the underlying    *)
+(* producer): the error is returned, no reference is taken, nothing is cached.  Whether such a   *)
+(* failed call re-arms the underlying Drop is left open: Drop(n) is not explored between a       *)
+(* failed open and the next successful one.                                                      *)
 (* The state carries the whole call history `hist`, so the state graph is the tree of all        *)
 (* open/close/drop sequences up to MaxSteps; the harness rebuilds a pre-state by executing the   *)
 (* history on a fresh producer (pattern R).  `act` is output only.                               *)
 EXTENDS Integers, Sequences, FiniteSets, TLC, Json
 
-CONSTANTS Names, MaxSteps
+CONSTANTS Names, MaxSteps, MaxFails
 VARIABLES opened,   \* name -> is there a cached store
           refs,     \* name -> opens not yet closed
           nd,       \* name -> an open happened since the last underlying drop
           uopen,    \* name -> OpenDB calls that reached the underlying producer
           uclose,   \* name -> Close calls that reached the underlying store
           udrop,    \* name -> Drop calls that reached the underlying store
-          opens,    \* name -> all OpenDB calls
+          opens,    \* name -> successful OpenDB calls
+          ufail,    \* name -> OpenDB calls whose underlying open failed
+          amb,      \* name -> a failed open happened after the last successful one
           hist,     \* calls so far: <<[op, n]>>
           act
-vars == <<opened, refs, nd, uopen, uclose, udrop, opens, hist, act>>
-View == <<opened, refs, nd, uopen, uclose, udrop, opens, hist>>
+vars == <<opened, refs, nd, uopen, uclose, udrop, opens, ufail, amb, hist, act>>
+View == <<opened, refs, nd, uopen, uclose, udrop, opens, ufail, amb, hist>>
 
 Abs == [hist |-> hist, names |-> Names]
-Obs == [uopen |-> uopen, uclose |-> uclose, udrop |-> udrop]
+Obs == [uopen |-> uopen, uclose |-> uclose, udrop |-> udrop, ufail |-> ufail]
 
 Zero == [n \in Names |-> 0]
 Init == /\ opened = [n \in Names |-> FALSE] /\ refs = Zero /\ nd = [n \in Names |-> FALSE]
-        /\ uopen = Zero /\ uclose = Zero /\ udrop = Zero /\ opens = Zero
+        /\ uopen = Zero /\ uclose = Zero /\ udrop = Zero /\ opens = Zero /\ ufail = Zero
+        /\ amb = [n \in Names |-> FALSE]
         /\ hist = <<>> /\ act = [op |-> "init"]
 
 Log(op, n) == hist' = Append(hist, [op |-> op, n |-> n])
@@ -43,10 +50,20 @@ Open(n) ==
   /\ refs' = [refs EXCEPT ![n] = @ + 1]
   /\ opened' = [opened EXCEPT ![n] = TRUE]
   /\ uopen' = [uopen EXCEPT ![n] = IF opened[n] THEN @ ELSE @ + 1]
-  /\ UNCHANGED <<uclose, udrop>>
+  /\ amb' = [amb EXCEPT ![n] = FALSE]
+  /\ UNCHANGED <<uclose, udrop, ufail>>
   /\ Log("open", n)
   \* same: the call returned the very store the previous OpenDB(n) returned
   /\ act' = [op |-> "open", n |-> n, res |-> [err |-> FALSE, same |-> opened[n]]]
+
+\* the underlying producer fails to open n: only an open that reaches it can fail
+OpenFail(n) ==
+  /\ Len(hist) < MaxSteps /\ ~opened[n] /\ MaxFails > 0 /\ ufail[n] < MaxFails
+  /\ ufail' = [ufail EXCEPT ![n] = @ + 1]
+  /\ amb' = [amb EXCEPT ![n] = TRUE]
+  /\ UNCHANGED <<opened, refs, nd, uopen, uclose, udrop, opens>>
+  /\ Log("openfail", n)
+  /\ act' = [op |-> "openfail", n |-> n, res |-> [err |-> TRUE, same |-> FALSE]]
 
 \* a store for n has been handed out at least once
 HasStore(n) == opens[n] > 0
@@ -60,18 +77,18 @@ Close(n) ==
           /\ opened' = [opened EXCEPT ![n] = refs[n] > 1]
           /\ uclose' = [uclose EXCEPT ![n] = IF refs[n] = 1 THEN @ + 1 ELSE @]
           /\ act' = [op |-> "close", n |-> n, res |-> [err |-> FALSE]]
-  /\ UNCHANGED <<nd, uopen, udrop, opens>>
+  /\ UNCHANGED <<nd, uopen, udrop, opens, ufail, amb>>
   /\ Log("close", n)
 
 Drop(n) ==
-  /\ Len(hist) < MaxSteps /\ HasStore(n)
+  /\ Len(hist) < MaxSteps /\ HasStore(n) /\ ~amb[n]
   /\ udrop' = [udrop EXCEPT ![n] = IF nd[n] THEN @ + 1 ELSE @]
   /\ nd' = [nd EXCEPT ![n] = FALSE]
-  /\ UNCHANGED <<opened, refs, uopen, uclose, opens>>
+  /\ UNCHANGED <<opened, refs, uopen, uclose, opens, ufail, amb>>
   /\ Log("drop", n)
   /\ act' = [op |-> "drop", n |-> n, res |-> [err |-> FALSE]]
 
-Next == \E n \in Names : Open(n) \/ Close(n) \/ Drop(n)
+Next == \E n \in Names : Open(n) \/ OpenFail(n) \/ Close(n) \/ Drop(n)
 Spec == Init /\ [][Next]_vars
 
 (* ---- the property (C27) at the level of the specification ---- *)
@@ -88,6 +105,16 @@ ExtraCloseIsError == [][act'.op = "close" => (act'.res.err <=> refs[act'.n] = 0)
 DropAtMostOncePerOpen == \A n \in Names : udrop[n] <= opens[n]
 \* a second open of an open name never reaches the underlying producer
 OneUnderlyingOpenPerGeneration == [][\A n \in Names : (act'.op = "open" /\ act'.n = n /\ opened[n]) => uopen'[n] = uopen[n]]_vars
+
+\* a failed open takes no reference and caches nothing
+FailedOpenIsNeutral == [][act'.op = "openfail" => (refs' = refs /\ opened' = opened /\ uopen' = uopen /\ uclose' = uclose)]_vars
+
+\* concurrent mode (pattern S): for every call history up to the bound, every ordered pair of calls that are both
+\* possible there; the harness issues the second while the first is held inside its underlying call
+Calls == {[op |-> o, n |-> n] : o \in {"open", "close", "drop"}, n \in Names}
+Possible(c) == c.op = "open" \/ (HasStore(c.n) /\ ~amb[c.n])
+EmitConc == PrintT(<<"EDGE", ToJson([hist |-> hist, names |-> Names,
+                                     pairs |-> {<<x, y>> : x \in {c \in Calls : Possible(c)}, y \in {c \in Calls : Possible(c)}}])>>)
 
 Emit == PrintT(<<"EDGE", ToJson([pre |-> Abs, act |-> act', post |-> Abs', obs |-> Obs'])>>)
 =============================================================================
